@@ -679,7 +679,7 @@ class Shutil:
             _drop(db.entries, eb)
         db.entries.append([b.parts[-1], ea[1]])
 
-    def copyfile(self, a, b):
+    def copyfile(self, a, b, **kw):
         a, b = self._p(a), self._p(b)
         n = a._node()
         if not isinstance(n, FileNode):
@@ -689,7 +689,7 @@ class Shutil:
             h.write(c)
         h.close()
 
-    def copytree(self, a, b):
+    def copytree(self, a, b, symlinks=False, **kw):
         a, b = self._p(a), self._p(b)
         n = a._node()
         if not isinstance(n, DirNode):
